@@ -24,26 +24,29 @@ Prob(t) == [n |-> t.n, f |-> t.f, k |-> t.k, sp |-> t.sp, q |-> t.q, tol |-> t.t
 
 RunShape(r) == r.nv = Len(r.V) /\ r.nf = Len(r.F) /\ \A i \in DOMAIN r.V : Len(r.V[i]) = 3
 
+(* known finding: coincident oppositely oriented triangle pairs on an ambiguous cell face *)
+KnownMembrane(p, r) == IF MembranesOnlyAsBuilt(p, r.V, r.F) THEN " KF=C06-lewiner-membrane" ELSE ""
+
 (* ---- clauses shared by "mc" and "sphere": one run of marching_cubes ------ *)
-MeshVerdict(p, r, gd) ==
+MeshVerdict(p, se, low, r, gd) ==          \* se = StraddlingEdges(p), low = BoundaryLow(p)
   LET ids == DOMAIN r.V IN
   IF r.exc # "" THEN "REJECT Raised" ELSE
   IF r.offgrid THEN "REJECT OnGrid" ELSE
   IF ~RunShape(r) THEN "REJECT Shape" ELSE
   IF ~ValidFaces(ids, r.F) THEN "REJECT ValidFaces" ELSE
   LET E == DirEdges(r.F) IN
-  IF ~EdgeOnceE(E, r.F) THEN "REJECT EdgeOnce" ELSE
+  IF ~EdgeOnceE(E, r.F) THEN "REJECT EdgeOnce" \o KnownMembrane(p, r) ELSE
   IF ~EdgeTwinE(E) THEN "REJECT EdgeTwin" ELSE
   IF ~DistinctVertices(r.V) THEN "REJECT DistinctVertices" ELSE
   IF ~OnLevel(p, r.V) THEN "REJECT OnLevel" ELSE
-  IF ~EdgeCover(p, r.V) THEN "REJECT EdgeCover" ELSE
-  IF ~Oriented(p, r.V, r.F, gd, FALSE) THEN "REJECT Oriented" ELSE
+  IF ~EdgeCoverOn(p, r.V, se) THEN "REJECT EdgeCover" ELSE
+  IF BSign(SignedVol6(r.V, r.F)) # VolSignFor(low, gd, FALSE) THEN "REJECT Oriented" ELSE
   "OK"
 
-Guard(p) ==
+Guard(p, se, low) ==
   IF ~WellFormed(p) THEN "OOD malformed problem" ELSE
-  IF ~LevelSetInside(p) THEN "OOD level set reaches the grid boundary" ELSE
-  IF StraddlingEdges(p) = {} THEN "OOD no level set" ELSE
+  IF ~(low \/ BoundaryHigh(p)) THEN "OOD level set reaches the grid boundary" ELSE
+  IF se = {} THEN "OOD no level set" ELSE
   "OK"
 
 OtherDir(d) == IF d = "descent" THEN "ascent" ELSE "descent"
@@ -56,10 +59,10 @@ PartitionOK(t) ==
   /\ t.ncellfaces = Len(t.run.F)
 
 McStatic(t) ==
-  LET p == Prob(t) g == Guard(p) IN
+  LET p == Prob(t) se == StraddlingEdges(p) low == BoundaryLow(p) g == Guard(p, se, low) IN
   IF g # "OK" THEN g ELSE
   IF t.gd \notin {"descent", "ascent"} THEN "OOD direction" ELSE
-  LET m == MeshVerdict(p, t.run, t.gd) IN
+  LET m == MeshVerdict(p, se, low, t.run, t.gd) IN
   IF m # "OK" THEN m ELSE
   IF t.has_rev /\ ~ReversalOK(t) THEN "REJECT Reversal" ELSE
   IF ~PartitionOK(t) THEN "REJECT CellPartition" ELSE
@@ -71,10 +74,10 @@ SphereProb(t, i) == LET x == t.items[i] IN [n |-> x.n, f |-> x.f, k |-> 0, sp |-
 RECURSIVE SphereScan(_, _, _, _)
 SphereScan(t, i, prevR, prevHi) ==      \* prevHi: upper bound on the previous item's error
   IF i > Len(t.items) THEN "ACCEPT" ELSE
-  LET x == t.items[i] p == SphereProb(t, i) g == Guard(p) IN
+  LET x == t.items[i] p == SphereProb(t, i) se == StraddlingEdges(p) low == BoundaryLow(p) g == Guard(p, se, low) IN
   IF g # "OK" THEN g ELSE
   IF ~(x.R > prevR /\ x.R >= 2 /\ SphereField(p, x.R, x.c)) THEN "OOD not the sphere family" ELSE
-  LET m == MeshVerdict(p, x.run, x.gd) IN
+  LET m == MeshVerdict(p, se, low, x.run, x.gd) IN
   IF m # "OK" THEN m ELSE
   LET v6 == SignedVol6(x.run.V, x.run.F) IN
   IF ~VolumeWithin(p, x.R, v6) THEN "REJECT VolumeWithin" ELSE
@@ -151,12 +154,13 @@ SweepCell ==
          p == Prob(t)
          cell == t.cells[idx + 1]
          patch == [j \in DOMAIN cell.fi |-> t.run.F[cell.fi[j]]]
+         nb == BndAfter(p, t.run.V, patch)
          why == IF ~PatchLocal(p, t.run.V, cell.c, patch) THEN "REJECT SweepPatchLocal" ELSE
                 IF ~CanProcess(p, cell.c, patch) THEN "REJECT SweepEdgeOnce" ELSE
-                IF ~SweepInvAt(p, t.run.V, BndAfter(patch), Rank(p, cell.c)) THEN "REJECT SweepInvariant" ELSE
+                IF ~SweepInvAt(nb, Rank(p, cell.c)) THEN "REJECT SweepInvariant" ELSE
                 "OK"
      IN IF why = "OK"
-        THEN ProcessCell(p, cell.c, patch) /\ idx' = idx + 1 /\ st' = st
+        THEN ProcessCellTo(p, cell.c, patch, nb) /\ idx' = idx + 1 /\ st' = st
         ELSE st' = "done" /\ Say(tid, why) /\ UNCHANGED <<idx, last, bnd, seen>>
   /\ UNCHANGED <<blk, tid>>
 SweepEnd ==
